@@ -137,6 +137,8 @@ def h_sched(P, S):
                     if earlier_open and viol is None:
                         viol = "request-answered-while-earlier-connection-open"
                     if t == "config" and isinstance(content, dict) and content.get("ok"):
+                        if acked_state >= 1 and viol is None:
+                            viol = "configuration-acknowledged-twice"      # write-once
                         acked_state = max(acked_state, 1)
                         ack_events.append((step, c.name))
                     if t == "upload_edb":
@@ -144,6 +146,8 @@ def h_sched(P, S):
                         which = ups[c.upload_replies] if c.upload_replies < len(ups) else None
                         c.upload_replies += 1
                         if isinstance(content, dict) and content.get("ok"):
+                            if acked_edb is not None and viol is None:
+                                viol = "index-acknowledged-twice"              # write-once
                             acked_state = 2
                             acked_edb = "e1" if which == "upload1" else "e2"
                             ack_events.append((step, c.name))
@@ -215,6 +219,7 @@ QUICK_SCRIPTS = [
     (1, [("A", ["upload1"]), ("B", ["upload2"])]),
     (1, [("A", ["upload1", "search"]), ("B", [])]),
     (2, [("A", ["search"]), ("B", ["search"])]),
+    (2, [("A", ["config"]), ("B", ["upload2"])]),
     (0, [("A", ["config"]), ("B", []), ("C", [])]),
     (2, [("A", []), ("B", []), ("C", ["search"])]),
 ]
